@@ -141,7 +141,7 @@ class Event(object):
 class Prov(object):
     def __init__(self, mod, func, receiver='self', file_params=(), obj_params=(),
                  globals_tracked=(), new_file_calls=(), file_classes=(), var_classes=(),
-                 filelist_params=()):
+                 filelist_params=(), int_index_views=False):
         """file_params: parameter names that are file objects (inputs);
         obj_params: parameters that are variable-like / array inputs;
         globals_tracked: module-level mutable containers to follow."""
@@ -153,6 +153,7 @@ class Prov(object):
         self.unknown_calls = 0
         self.calls = 0
         self.globals_tracked = set(globals_tracked)
+        self.int_index_views = int_index_views
         self.new_file_calls = set(new_file_calls) | set([
             '_copywith', '_newlike', 'copy', 'subsetVariables', 'sliceDimensions', 'applyAlongDimensions',
             'removeSingleton', 'renameVariables', 'renameDimensions', 'insertDimension', 'stack', 'eval', 'mask',
@@ -208,6 +209,9 @@ class Prov(object):
             if isinstance(e, ast.Slice) or (isinstance(e, ast.Constant) and e.value is Ellipsis):
                 has_slice = True
             elif isinstance(e, ast.Constant) and (e.value is None or isinstance(e.value, int)):
+                continue
+            elif isinstance(e, ast.Name) and getattr(self, 'int_index_views', False):
+                has_slice = True      # caller asserts: N-D arrays indexed by loop counters yield sub-array views
                 continue
             elif isinstance(e, ast.UnaryOp) and isinstance(e.operand, ast.Constant) and isinstance(e.operand.value, int):
                 continue
